@@ -1,7 +1,7 @@
 (* C13 — Reference values canonicalise idempotently and survive JSON and gob.
    Model: Base/Url.v (jsonreference.New = url.Parse + NormalizeURL + flags; String = URL.String). *)
 From Coq Require Import List String Ascii Bool Arith.
-From Spec Require Import Base.Json Base.Url Base.UrlFacts.
+From Spec Require Import Base.Json Base.Url Base.UrlFacts Base.UrlText Codec.Types Codec.Codec Codec.RefFacts.
 Import ListNotations.
 Local Open Scope char_scope.
 
@@ -26,6 +26,48 @@ Print Assumptions C13_reference_idempotent.
 Theorem C13_escape_roundtrip : forall m s, unesc (escape m s) = Some s.
 Proof. exact unesc_escape. Qed.
 Print Assumptions C13_escape_roundtrip.
+
+(* ---- on TEXTS, unbounded (Base/UrlText.v) ----
+   [wf_plain] is the class of URLs whose components need no percent escape: letters, digits, - _ . ~ everywhere, "/" in
+   paths and fragments (so every JSON pointer without a "%"), "=" "&" "/" in queries; scheme://host/path, //host/path,
+   scheme:/path, scheme:///path, absolute and relative paths, with or without query and fragment; any length. *)
+
+(* printing a plain URL and parsing the print gives the URL back, field for field (net/url's Parse and String as modelled) *)
+Theorem C13_parse_print : forall u, wf_plain u = true -> parse_url (print_url u) = POk u.
+Proof. exact parse_print_plain. Qed.
+Print Assumptions C13_parse_print.
+
+(* "a reference prints to a string that parses back to an equal reference": whatever the spelling the reference was read
+   from (scheme and host in any case, default port, duplicate slashes), if its canonical form is plain then the canonical
+   text parses back to the very same reference - URL, the five flags and all *)
+Theorem C13_text_roundtrip : forall s u, parse_url s = POk u ->
+  one_port (map lower (u_host u)) = true -> wf_plain (normalize_url u) = true ->
+  new_ref s = POk (ref_of_url u) /\ new_ref (ref_string (ref_of_url u)) = POk (ref_of_url u).
+Proof. exact text_canonicalisation_idempotent. Qed.
+Print Assumptions C13_text_roundtrip.
+
+(* "its JSON and gob encodings decode to an equal reference": in the codec model (G = false: JSON; G = true: through gob),
+   the object {"$ref": canonical text} decodes and re-encodes to itself, as a Ref and as the Refable part of any kind;
+   "an empty reference encodes as an empty object" *)
+Theorem C13_codec_roundtrip : forall E G u k, k = "Ref"%string \/ k = "Refable"%string ->
+  one_port (map lower (u_host u)) = true -> wf_plain (normalize_url u) = true ->
+  norm E G (ref_obj (ref_string (ref_of_url u))) (TNamed k) = ROk (ref_obj (ref_string (ref_of_url u))).
+Proof. exact ref_codec_roundtrip. Qed.
+Print Assumptions C13_codec_roundtrip.
+
+Theorem C13_codec_unset : forall E G k, k = "Ref"%string \/ k = "Refable"%string ->
+  norm E G (JObj []) (TNamed k) = ROk (JObj []).
+Proof. exact ref_codec_unset. Qed.
+Print Assumptions C13_codec_unset.
+
+(* the hypotheses are met by a spelling with an upper-case scheme and host, the default port and duplicate slashes *)
+Example C13_text_example :
+  match parse_url (s2l "HTTP://Host.Example.COM:80//a//b-c/d.json?x=1&y=2#/definitions/a~1b") with
+  | POk u => one_port (map lower (u_host u)) = true /\ wf_plain (normalize_url u) = true
+             /\ ref_string (ref_of_url u) = s2l "http://host.example.com/a/b-c/d.json?x=1&y=2#/definitions/a~1b"
+  | _ => False
+  end.
+Proof. exact text_example. Qed.
 
 (* non-vacuity on strings: print . parse is a fixed point after one step, with the flags unchanged *)
 Example C13_example :
